@@ -20,9 +20,10 @@ import hashlib
 import inspect
 import json
 import textwrap
+import threading
 from abc import ABC, abstractmethod
 from decimal import Decimal
-from types import CodeType
+from types import CodeType, FunctionType
 from typing import Callable, Dict, Set, Optional, List, Union, Type
 from weakref import WeakKeyDictionary
 
@@ -31,6 +32,10 @@ from twosigma.memento.exception import DependencyNotFoundError
 from twosigma.memento.logging import log
 from twosigma.memento.serialization import MementoCodec
 from twosigma.memento.types import MementoFunctionType
+
+
+_description_in_progress = threading.local()
+"""`functions`: the functions that the description in progress (_stable_repr) has entered"""
 
 
 def _stable_repr(o) -> str:
@@ -67,6 +72,16 @@ def _stable_repr(o) -> str:
             (bytes, bytearray, complex, range, datetime.time, datetime.timedelta, Decimal),
         ):
             return type(o).__qualname__ + "(" + repr(o) + ")"
+        if isinstance(o, FunctionType):
+            # A plain function or a lambda (as a default value, in a closure) is what its
+            # code is. (A function can be reached from itself through its own closure.)
+            entered = _description_in_progress.__dict__.setdefault("functions", set())
+            if id(o) not in entered:
+                entered.add(id(o))
+                try:
+                    return "function(" + fn_code_hash(o) + ")"
+                finally:
+                    entered.discard(id(o))
         return type(o).__module__ + ":" + type(o).__qualname__
     return type(o).__qualname__ + "(" + ", ".join(items) + ")"
 
